@@ -221,7 +221,9 @@ func c12StartServer(dir, port string) (*anndb.Server, *c12Client, error) {
 	return srv, &c12Client{conn: conn, dm: pb.NewDatasetManagerClient(conn), da: pb.NewDataManagerClient(conn), se: pb.NewSearchClient(conn)}, nil
 }
 
-func c12Progress(dir string, i int) { os.WriteFile(filepath.Join(dir, "progress.txt"), []byte(fmt.Sprint(i)), 0644) }
+func c12Progress(dir string, i int) {
+	os.WriteFile(filepath.Join(dir, "progress.txt"), []byte(fmt.Sprint(i)), 0644)
+}
 
 // phase 1: the child that serves the requests and is then killed
 func runC12Serve(c *c12Case, st *stats) {
